@@ -1791,7 +1791,7 @@ class BodyElementComparison_LessThan(BodyElementComparison):
 
 
 BEC_LESS_THAN_RE = re.compile(r'^([ \t]*[<][ \t]*)')
-COMPARISON_RES.append( (BEC_LESS_THAN_RE, BodyElementComparison_LessThan) )
+# NOTE: Registered after "<=" (below), so that "<=" is not read as "<" followed by "="
 
 
 class BodyElementComparison_LessThanOrEqual(BodyElementComparison):
@@ -1811,6 +1811,7 @@ class BodyElementComparison_LessThanOrEqual(BodyElementComparison):
 
 BEC_LESS_THAN_OR_EQUAL_RE = re.compile(r'^([ \t]*[<][=][ \t]*)')
 COMPARISON_RES.append( (BEC_LESS_THAN_OR_EQUAL_RE, BodyElementComparison_LessThanOrEqual) )
+COMPARISON_RES.append( (BEC_LESS_THAN_RE, BodyElementComparison_LessThan) )
 
 
 class BodyElementComparison_GreaterThan(BodyElementComparison):
@@ -1829,7 +1830,7 @@ class BodyElementComparison_GreaterThan(BodyElementComparison):
 
 
 BEC_GREATER_THAN_RE = re.compile(r'^([ \t]*[>][ \t]*)')
-COMPARISON_RES.append( (BEC_GREATER_THAN_RE, BodyElementComparison_GreaterThan) )
+# NOTE: Registered after ">=" (below), so that ">=" is not read as ">" followed by "="
 
 
 class BodyElementComparison_GreaterThanOrEqual(BodyElementComparison):
@@ -1849,6 +1850,7 @@ class BodyElementComparison_GreaterThanOrEqual(BodyElementComparison):
 
 BEC_GREATER_THAN_OR_EQUAL_RE = re.compile(r'^([ \t]*[>][=][ \t]*)')
 COMPARISON_RES.append( (BEC_GREATER_THAN_OR_EQUAL_RE, BodyElementComparison_GreaterThanOrEqual) )
+COMPARISON_RES.append( (BEC_GREATER_THAN_RE, BodyElementComparison_GreaterThan) )
 
 
 #############################
